@@ -104,7 +104,7 @@ def _c18():
         ("c18_mv_1leaf_s0", "1 leaf path, 0 siblings", "quick", 6),
         ("c18_mv_1leaf_s2", "1 leaf path, 2 siblings", "quick", 6),
         ("c18_mv_1term_s1", "1 terminator(depth 3) path, 1 sibling", "quick", 6),
-        ("c18_mq_1leaf_s1", "1 leaf path, 1 sibling, + find_index_for/confirm_* on a symbolic query", "quick", 12),
+        ("c18_mq_1leaf_s1", "1 leaf path, 1 sibling, + find_index_for/confirm_* on a symbolic query", "thorough", 30),
 
     ]
     m2 = [
@@ -119,6 +119,7 @@ def _c18():
     for h, d in m2:
         obl.append(K("c18_multi::" + h, tier="thorough", unwind=10, classes="multi3" if "m3" in h else "multi2",
                      timeout_s=5400, mem_gb=40, memsafe=False, kani_args=["-Z", "stubbing"],
+                     allow_unsat=["in-scope query", "some multi-proof verifies"],
                      desc="verify_multi_proof never panics: " + d,
                      bounds="shape: " + d + "; claimed depths concrete, key bits symbolic in a 4-bit window (adjacent leaf keys distinct), "
                             "siblings/values symbolic; hash_path replaced by a value-havoc stub (kani::stub)",
@@ -130,7 +131,10 @@ def _c18():
                  functions=FM, assumes=[ASSUME_HAVOC]))
     for h, d, tier, mem in mv:
         cls = "multi3" if "3 leaf" in d else ("multi2" if h.startswith("c18_mv_2") or "leafterm" in h or "2leaf" in h else "multi1")
-        obl.append(K("c18_multi::" + h, tier=tier, unwind=10, classes=cls, timeout_s=1500 if tier == "quick" else 7200,
+        allow = [] if h.startswith("c18_mq") else ["in-scope query"]
+        if h == "c18_mv_empty_s1":
+            allow.append("some multi-proof verifies")
+        obl.append(K("c18_multi::" + h, tier=tier, unwind=10, classes=cls, allow_unsat=allow, timeout_s=1500 if tier == "quick" else 7200,
                      mem_gb=mem, memsafe=(tier != "quick"),
                      desc="verify_multi_proof (and queries) never panic: " + d,
                      bounds="shape: " + d + "; MultiPathProof::depth full-width symbolic usize; key bits symbolic in a 4-bit "
@@ -217,7 +221,7 @@ def _c02():
     return bt + vc
 
 
-RB_NAMES = ["s1_insert", "s1_overwrite", "s1_delete", "s1_delete_absent", "s2d0_split", "s2d1_split", "s2d2_split",
+RB_NAMES = ["s4a_absent_del_two_puts", ("s3a_absent_del_put", "thorough"), "s1_insert", "s1_overwrite", "s1_delete", "s1_delete_absent", "s2d0_split", "s2d1_split", "s2d2_split",
             "s2d1_collapse", "s2d2_collapse", "s2d0_clear", "s2d0_both", ("s3a_delete_left", "thorough"),
             ("s3a_insert_mid", "thorough"), ("s3b_collapse_left", "thorough"), ("s3c_delete_deep", "thorough"),
             ("s4a_mixed", "thorough")]
@@ -340,6 +344,18 @@ K_META = _nomt_family("c16_meta", ["c16_meta_roundtrip", "c16_meta_decode_encode
                       ["nomt::store::meta::Meta::encode_to", "nomt::store::meta::Meta::decode", "nomt::store::meta::Meta::create_new"],
                       unwind=100, classes="mem128", timeout_s=600, mem_gb=4)
 
+K_PAGEID = [K("c16_pageid::" + n, tier=t, unwind=22, classes="default", timeout_s=900, mem_gb=6,
+              desc=d + " [" + n + "]", bounds=b,
+              functions=["nomt_core::page_id::PageId::encode", "nomt_core::page_id::PageId::child_page_id", "ruint::Uint::<256,4>::{add, shl}"],
+              assumes=[])
+            for n, t, d, b in
+            [(n, t, "PageId::encode (the 32-byte label stamped into every stored merkle page) equals the independent 128-bit reference "
+                    "encoding sum((limb+1) << 6*(n-i))", "every page id of the named depth, all limbs symbolic (0..63)")
+             for n, t in [("c16_label_d0", "quick"), ("c16_label_d1", "quick"), ("c16_label_d3", "thorough"), ("c16_label_d8", "quick"),
+                          ("c16_label_d9", "quick"), ("c16_label_d10", "quick"), ("c16_label_d11", "quick"), ("c16_label_d16", "thorough")]] +
+            [(n, t, "labels are injective: encode(p) == encode(q) implies p == q", "every pair of page ids of the named depths, all limbs symbolic")
+             for n, t in [("c16_inj_d2_d2", "quick"), ("c16_inj_d9_d10", "quick"), ("c16_inj_d10_d10", "quick"), ("c16_inj_d10_d11", "thorough")]]]
+
 _KANI_EXPL = ("Bounded model checking (Kani 0.68 / CBMC 6.11 / cadical) of the real nomt-core code compiled from /repo; the "
               "oracle is the specification's trie written as data (shape.rs) and hashed through the same symbolic random oracle.")
 
@@ -391,7 +407,7 @@ PROPERTIES = {
                            "symbolically for every worker count 1..64 and every child.",
             "outside": ["every schedule", "warm-up, extend-range protocol, eviction, io_workers, hasher choice", "cross-configuration "
                         "equality of roots"]},
-    "C16": {"level": "model_checking", "obligations": K_META + K_LEAF_LAYOUT + [M_META_BYTE],
+    "C16": {"level": "model_checking", "obligations": K_META + K_LEAF_LAYOUT + K_PAGEID + [M_META_BYTE],
             "explanation": "Format kernels: each encoder's output decodes, by the documented layout alone, to what was encoded, for "
                            "arbitrary garbage in unwritten bytes (Kani/CBMC over the real encoders; z3 over MIR for tag bytes).",
             "outside": ["whole-image invariants: exactly one leaf per key across leaves, no page both free and used, reachability of "
